@@ -400,6 +400,20 @@ def main():
     if spec.get('kani'):
         import kani_run
         kani_results = kani_run.run_for(pid, spec, tier, oc)
+    # supplementary exploration (never proof): properties that rest partly on trusted/bounded components get a
+    # time-boxed concrete search against the real crate; only a failing execution is reported (a sound alarm)
+    explore = None
+    if spec.get('explore') and not oc.violations and not os.environ.get('VERIF_NO_REPLAYER'):
+        import replayer_run
+        budget = 8000 if tier == 'quick' else 90000
+        found = replayer_run.search(pid, None, seed, budget_ms=budget)
+        explore = dict(budget_ms=budget, result=(found or {}).get('note'))
+        if found and found.get('failing_input'):
+            oc.violations.append(dict(build='replayer', key='replayer-explore', kind='concrete-counterexample', module='-', function='-',
+                                      message='supplementary concrete search found an input violating the executable mirror of the property '
+                                              '(in code that is not under contract: trusted constructor / fn-pointer glue)',
+                                      site=found['failing_input'].get('message', '')[:200], site_tags=[], clause='', clause_tags=[],
+                                      tree_changed=None, _found=found))
     wall = time.time() - t0
     for hk, what in oc.known:
         log('KNOWN-FINDING: property=%s %s [%s]' % (pid, what, hk))
@@ -417,7 +431,7 @@ def main():
                              kani_cbmc=kani_results),
             extraction=oc.parts,
             vacuity=dict(canaries_inserted=oc.canaries[0], canaries_failed_as_required=oc.canaries[1]),
-            undecided=oc.undecided, notes=oc.notes[:50],
+            undecided=oc.undecided, notes=oc.notes[:50], supplementary_exploration=explore,
             explanation=spec.get('explanation', 'Verus discharges the contracts of the listed functions (extracted from the working '
                                                 'tree on this run); obligations = verified exec/proof functions serving the property'),
         ),
@@ -431,7 +445,7 @@ def main():
     if oc.violations:
         import replayer_run
         for n, v in enumerate(oc.violations[:3]):
-            found = replayer_run.search(pid, v, seed)
+            found = v.pop('_found', None) or replayer_run.search(pid, v, seed)
             path = write_replay(pid, v, n, found)
             tail = '' if (found and found.get('failing_input')) else ' no-failing-input-found'
             log('obligation failed: [%s] %s::%s  %s  clause: %s' % (v['kind'], v['module'], v['function'], v['site'][:100], v['clause'][:100]))
